@@ -86,6 +86,8 @@ BENIGN = [
  ('new_collapsed_continue_form', R + 'core/cones/supportedcone.rs', None, None),  # handled specially: `if cone.nvars() == 0 { continue; }`
  ('clique_purge_iter_mut', 'src/solver/chordal/merge/clique_graph.rs', '        for set in adjacency_table.values_mut() {\n            set.shift_remove(&c_removed);\n        }', '        for (_, set) in adjacency_table.iter_mut() {\n            set.shift_remove(&c_removed);\n        }'),
  ('reverse_compact_all_sliced', 'src/solver/chordal/decomp/reverse_compact.rs', None, None),  # handled specially: all four vectors viewed through sub-slices
+ ('equilibrate_rectify_scratch', D + 'problemdata.rs', '        if cones.rectify_equilibration(ework, e) {\n            // only rescale again if some cones were rectified\n            scale_data(P, A, q, b, None, ework);\n            e.hadamard(ework);\n        }',
+  '        let mut delta = vec![T::one(); e.len()];\n        if cones.rectify_equilibration(&mut delta, e) {\n            // only rescale again if some cones were rectified\n            scale_data(P, A, q, b, None, &delta);\n            e.hadamard(&delta);\n        }'),
  ('refactor_comment_and_let', 'src/qdldl/qdldl.rs', '        self.is_symbolic = false;\n        _factor(', '        self.is_symbolic = false;\n        let _n = self.D.len();\n        _factor('),
 ]
 
